@@ -182,6 +182,10 @@ pub(crate) struct VarSlot {
     pub name: StrId,
     pub kind: VarKind,
     pub driver: VarDriverKind,
+    /// A procedural local — a `let`, or a `var` declared inside an always
+    /// block or function: assigned with blocking `=` even within `always_ff`
+    /// (the analyzer's `gather_ff` makes the same distinction).
+    pub block_local: bool,
 }
 
 pub(crate) struct PreFf {
@@ -235,6 +239,10 @@ pub(crate) struct ConvContext {
     /// Read only by `record_ram_write` (AND'd into a write-enable); balanced
     /// push/pop leaves it empty at statement-stream boundaries.
     pub cond_stack: Vec<CondTerm>,
+    /// Set while the body of an `always_ff` is lowered: assignments there are
+    /// non-blocking, so a read of a register sees its Q net (the value before the
+    /// clock edge) even after an earlier statement of the block assigned it.
+    pub ff_nonblocking: bool,
     /// RAM-inference thresholds, forwarded to flattened child conversions.
     pub ram_config: RamConfig,
     /// Target cell library, scoring the restructure A/B in `finalize`.
@@ -278,6 +286,7 @@ impl ConvContext {
             ram_builders: HashMap::new(),
             flattened_rams: Vec::new(),
             cond_stack: Vec::new(),
+            ff_nonblocking: false,
             ram_config,
             library,
         }
@@ -432,6 +441,14 @@ impl ConvContext {
                     name,
                     kind: v.kind,
                     driver: VarDriverKind::None,
+                    block_local: v.kind == VarKind::Let
+                        || matches!(
+                            v.affiliation,
+                            veryl_analyzer::symbol::Affiliation::AlwaysFf
+                                | veryl_analyzer::symbol::Affiliation::AlwaysComb
+                                | veryl_analyzer::symbol::Affiliation::StatementBlock
+                                | veryl_analyzer::symbol::Affiliation::Function
+                        ),
                 },
             );
         }
@@ -710,7 +727,10 @@ impl ConvContext {
                 } else if let Some(Statement::IfReset(ifreset)) = x.statements.first() {
                     self.reset_values_by_elaboration(x, &ifreset.true_side);
                 }
-                process_statements(self, &main_stmts, &mut current)?;
+                self.ff_nonblocking = true;
+                let lowered = process_statements(self, &main_stmts, &mut current);
+                self.ff_nonblocking = false;
+                lowered?;
                 for (vid, nets) in current {
                     let pre = match self.ff_allocation.get(&vid) {
                         Some(p) => p.ff_indices.clone(),
